@@ -111,3 +111,10 @@ check(
     "Hypothesis property-based metamorphic testing over harvested tool fixtures (subset/decoy relations vs. full-report run)",
     "DESIGN.md §3 C06",
 )
+check(
+    "C14", "exploration",
+    "Grammar-based generated search with independent judges: manifest texts in the four formats (requirements.txt with pins/ranges/extras/markers/URLs/-r,-c,-e/comments/CRLF/BOM/empty/trailing blanks; pyproject.toml with [project] inline/multi-line/empty/absent and poetry tables; setup.py literal/non-literal/absent install_requires incl. setuptools.setup; setup.cfg newline- and comma-separated) in projects with 0-3 manifests (nested, some already declaring the package under another spelling), under the dependency-adding codemods through the real CLI, twice. tomllib / ast / configparser / packaging decide: at most one manifest changes, it still parses, reqs(before) subset of reqs(after), the new package exactly once by PEP 503 name, non-dependency content preserved, a declaring manifest untouched, second run adds nothing, 'could not add' notice when nothing is updatable. A RuleBasedStateMachine drives histories (run adder / user appends a requirement / rerun) with the same invariants after every step.",
+    "Trusted: the stdlib/packaging parsers as format judges; per-manifest reading of 'already declared'; TOML/cfg unrelated content compared after parsing, txt/py textually.",
+    "grammar-based Hypothesis generation + stateful histories; independent parsers as oracles",
+    "DESIGN.md §3 C14",
+)
